@@ -35,6 +35,12 @@ man = {
          'kind_free_text': 'contract-based deductive verification: real functions are extracted mechanically from /repo on every run, '
                            'spliced with requires/ensures/invariants from contracts/units/*.rs and discharged by Verus (Z3); '
                            'a few comparison-only float leaf lemmas by Kani/CBMC'},
+        {'name': 'bounded-search-harness', 'path': 'replays/search/verif_search.rs + vf/replay.py + vf/thorough.py',
+         'serves_properties': ['C01', 'C02', 'C03', 'C04', 'C05', 'C06', 'C08', 'C09', 'C10', 'C12', 'C15', 'C16', 'C20'],
+         'kind_free_text': 'NOT a deciding engine: a test built in a scratch copy of /repo that calls the public API on every graph with at most 4 nodes and compares '
+                           'with an oracle (or only watches for panics / hangs). Used (a) after a failed obligation, to attach a concrete failing input to the VIOLATION '
+                           'line, and (b) in the thorough tier as bounded stand-ins for the parts of a property no contract decides - labelled bounded in the evidence '
+                           'and never counted as proved (DESIGN.md 2.5, 2.7)'},
     ],
     'checks': checks,
     'not_applicable': na,
